@@ -13,6 +13,10 @@ z3.set_param("smt.random_seed", SEED % (2 ** 31))
 z3.set_param("sat.random_seed", SEED % (2 ** 31))
 
 
+# cross-check every n-th discharged obligation with cvc5 (0 = off); the thorough tier sets VERIF_XCHECK=5
+XCHECK_EVERY = int(os.environ.get("VERIF_XCHECK", "0") or 0)
+
+
 class EngineUnsupported(Exception):
     """a construct the proxies cannot model: the run is inconclusive, never pass/fail"""
 
@@ -29,6 +33,7 @@ class Ctx:
     cur = None
     FEAS_MS = 2000
     MAX_DEPTH = 600
+    NPROVED = 0
 
     def __init__(self, prefix=()):
         self.solver = z3.Solver()
@@ -137,6 +142,43 @@ class Ctx:
         self.solver_s += time.time() - t
         return r, (s.model() if r == "sat" else None), s
 
+    XCHECK = dict(unsat=0, unknown=0, disagree=0, secs=0.0)
+
+    def crosscheck(self, s, timeout_ms=15000):
+        """second opinion on a discharged obligation: the same query through cvc5 (SMT-LIB export). Only ever used to
+        re-check `unsat`; a cvc5 `sat` downgrades the obligation to unknown (solvers disagree)."""
+        try:
+            import cvc5
+        except Exception:
+            return None
+        t = time.time()
+        res = None
+        try:
+            slv = cvc5.Solver()
+            slv.setOption("tlimit-per", str(timeout_ms))
+            slv.setLogic("ALL")
+            p = cvc5.InputParser(slv)
+            p.setStringInput(cvc5.InputLanguage.SMT_LIB_2_6, s.to_smt2(), "q")
+            sm = p.getSymbolManager()
+            while True:
+                cmd = p.nextCommand()
+                if cmd.isNull():
+                    break
+                o = str(cmd.invoke(slv, sm)).strip()
+                if o in ("sat", "unsat", "unknown"):
+                    res = o
+        except Exception:
+            res = "unknown"
+        X = Ctx.XCHECK
+        X["secs"] += time.time() - t
+        if res == "unsat":
+            X["unsat"] += 1
+        elif res == "sat":
+            X["disagree"] += 1
+        else:
+            X["unknown"] += 1
+        return res
+
     def refute_with_hints(self, claim, tries=3, timeout_ms=4000, extra=()):
         """look for a counterexample with the harness inputs pinned to pool values (never part of a proof)"""
         import random
@@ -156,6 +198,12 @@ class Ctx:
         """verdict on  side & pc & axioms |= claim : 'unsat' means proved"""
         claim = claim if z3.is_expr(claim) else B(claim)
         r, m, s = self.solve(z3.Not(claim), *extra, timeout_ms=timeout_ms)
+        if r == "unsat" and XCHECK_EVERY and (sum(Ctx.XCHECK[k] for k in ("unsat", "unknown", "disagree")) * XCHECK_EVERY
+                                               <= Ctx.NPROVED):
+            if self.crosscheck(s) == "sat":
+                r = "unknown"
+        if r == "unsat":
+            Ctx.NPROVED += 1
         if r == "unknown" and retry:
             # second configuration before giving up
             r2, m2, s2 = self.solve(z3.Not(claim), *extra, timeout_ms=timeout_ms,
